@@ -1068,7 +1068,7 @@ def run_path(fn, kwargs, prefix, opts, collect_funcs=False, func_filter=None):
                 co = frame.f_code
                 fnm = co.co_filename
                 if func_filter is None or func_filter in fnm:
-                    funcs.add(fnm.split('/repo/')[-1] + ':' + co.co_qualname)
+                    funcs.add(fnm.split('/jesse/', 1)[-1] + ':' + co.co_qualname if '/jesse/' in fnm else fnm)
         sys.setprofile(prof)
     t0 = time.perf_counter()
     try:
